@@ -39,6 +39,11 @@ type UserSpec struct {
 	Password string
 }
 
+// usersABL: two ordinary users and one whose name has the maximum length
+// region (49..64 bytes: the user hint hashes name and nonce prefix together).
+var usersABL = []UserSpec{{"alice", "alice-secret"}, {"bob", "bob-secret"},
+	{"lovelace-" + "0123456789abcdefghijklmnopqrstuvwxyzABCDEFGHIJKLMNOPQRS", "lovelace-secret"}}
+
 func (u UserSpec) Hashed() []byte { return refcodec.HashedPassword(u.Password, u.Name) }
 
 // EnvCfg configures one client/server pair on a simulated network.
